@@ -14,6 +14,7 @@ import itertools
 import math
 import selectors
 import socket
+import weakref
 from asyncio import events, selector_events
 
 
@@ -138,7 +139,13 @@ class Kernel:
         self.default_peer = peer
         for p in ([peer] if peer is not None else []) + list(self.peers.values()):
             p.kern = self
-        self.transports = []  # every real transport object the loop created (C10)
+        self._transports = []  # weak references to every real transport object the loop created (C10)
+
+    @property
+    def transports(self):
+        """the transports that are still alive (weakly held: a transport nobody references any more is collected and
+        its socket closed by the transport's own __del__, exactly as in production)"""
+        return [t for t in (r() for r in self._transports) if t is not None]
 
     def peer_for(self, remote):
         host = remote[0] if remote else None
@@ -208,8 +215,9 @@ class Kernel:
         r = self._ready()
         if r or timeout == 0:
             return r
-        if self.idle_hook is not None and self.idle_hook():
+        while self.idle_hook is not None and self.idle_hook():
             # every runnable task has run until it blocked: the environment may now release a parked answer
+            # (an answer released to an already closed socket is lost; try the next one before time moves on)
             self._arrive()
             r = self._ready()
             if r:
@@ -257,7 +265,7 @@ class KLoop(selector_events.BaseSelectorEventLoop):
         protocol = protocol_factory()
         waiter = self.create_future()
         transport = self._make_datagram_transport(sock, protocol, remote_addr, waiter)
-        self.kern.transports.append(transport)
+        self.kern._transports.append(weakref.ref(transport))
         try:
             await waiter
         except BaseException:
@@ -285,7 +293,7 @@ class KLoop(selector_events.BaseSelectorEventLoop):
         k.log.append(('connected', k.now))
         sock = FakeSock(k, 'tcp', (host, port))
         transport, protocol = await self._create_connection_transport(sock, protocol_factory, None, None)
-        k.transports.append(transport)
+        k._transports.append(weakref.ref(transport))
         return transport, protocol
 
     # --- driving helpers
